@@ -55,3 +55,14 @@ Theorem C11_query_once : forall re_ok re_match o E P c f out,
   run re_ok re_match o E P c f = Done out -> NoDup (queries (out_trace out)).
 Proof. exact queries_nodup. Qed.
 Print Assumptions C11_query_once.
+
+(* the priority table of the source (gen/Tables.v, regenerated on every run) is the model's *)
+From LD Require Import TablesProof.
+From LDGen Require Import Tables.
+From Coq Require Import String.
+Theorem C11_status_priorities_match_source :
+  status_priorities = [("BigSegmentsStale", bs_priority Stale); ("BigSegmentsStoreError", bs_priority StoreError);
+                       ("BigSegmentsNotConfigured", bs_priority NotConfigured)]%string
+  /\ status_priority_default = bs_priority Healthy.
+Proof. exact status_priorities_match_source. Qed.
+Print Assumptions C11_status_priorities_match_source.
